@@ -22,7 +22,7 @@ def close(a, b, rel=1e-9, abs_=1e-9):
 
 def run_match(case, **kw):
     mp = U.make_map(case['graph'])
-    mt = U.make_matcher(mp, case['cfg'])
+    mt = U.make_matcher(mp, case['cfg'], case.get('warmup'))
     res = mt.match(case['trace'], **kw)
     return mp, mt, res
 
@@ -103,7 +103,7 @@ def case_C02(seed):
     case = U.gen_case(rnd)
     U.quiet()
     mp = U.make_map(case['graph'])
-    mt = U.make_matcher(mp, case['cfg'])
+    mt = U.make_matcher(mp, case['cfg'], case.get('warmup'))
     view = O.View(graph=case['graph'])
     model = O.Model(case['cfg'])
     ops = gen_history(rnd, case, allow_cwd=False)
@@ -202,7 +202,7 @@ def case_C03(seed):
     U.quiet()
     unique = rnd.random() < 0.5
     mp = U.make_map(case['graph'])
-    mt = U.make_matcher(mp, case['cfg'])
+    mt = U.make_matcher(mp, case['cfg'], case.get('warmup'))
     ops = gen_history(rnd, case, allow_cwd=False) if rnd.random() < 0.6 else [('match', len(case['trace']))]
     viol, done, nt = [], [], False
     for op in ops:
@@ -258,7 +258,7 @@ def case_C04(seed):
     case = U.gen_case(rnd, laps=rnd.random() < 0.15)
     U.quiet()
     mp = U.make_map(case['graph'])
-    mt = U.make_matcher(mp, case['cfg'])
+    mt = U.make_matcher(mp, case['cfg'], case.get('warmup'))
     view = O.View(graph=case['graph'])
     ops = gen_history(rnd, case, allow_cwd=False)
     unique = rnd.random() < 0.5
@@ -300,7 +300,7 @@ def case_C05(seed):
     case = U.gen_case(rnd)
     U.quiet()
     mp = U.make_map(case['graph'])
-    mt = U.make_matcher(mp, case['cfg'])
+    mt = U.make_matcher(mp, case['cfg'], case.get('warmup'))
     ops = gen_history(rnd, case, allow_cwd=True) if rnd.random() < 0.5 else [('match', len(case['trace']))]
     if any(o[0] == 'cwd' for o in ops):
         ops.append(('extend_same',))
@@ -412,7 +412,7 @@ def case_C07(seed):
     maxcol = max((sum(len(l) for l in col.o) for col in mtu.lattice.values()), default=0) if mtu.lattice else 0
     # pruned run with monitor
     mp = U.make_map(case['graph'])
-    mt = U.make_matcher(mp, case['cfg'])
+    mt = U.make_matcher(mp, case['cfg'], case.get('warmup'))
     log = []
     expanded_set_monitor(mt, log)
     res = mt.match(case['trace'])
@@ -469,11 +469,11 @@ def case_C08(seed):
     case = U.gen_case(rnd, trace_len=rnd.choice([2, 3, 4, 5]))
     U.quiet()
     n = len(case['trace'])
-    mp1, mt1, res1 = run_match(case)
+    mp1, mt1, res1 = run_match(dict(case, warmup=None))      # the one-shot reference runs on a fresh matcher
     one = U.canon(mt1, res1)
     cuts = sorted(set(rnd.randint(1, n - 1) for _ in range(rnd.randint(1, 2)))) if n > 1 else []
     mp = U.make_map(case['graph'])
-    mt = U.make_matcher(mp, case['cfg'])
+    mt = U.make_matcher(mp, case['cfg'], case.get('warmup'))
     viol = []
     try:
         res = mt.match(case['trace'][:cuts[0]] if cuts else case['trace'])
@@ -512,7 +512,7 @@ def case_C09(seed):
 
 def _case_C09(rnd, case, dbg):
     mp = U.make_map(case['graph'])
-    mt = U.make_matcher(mp, case['cfg'])
+    mt = U.make_matcher(mp, case['cfg'], case.get('warmup'))
     ops = gen_history(rnd, case, allow_cwd=True)
     viol, done = [], []
     nt = False
@@ -774,7 +774,7 @@ def case_C19(seed):
         lg.setLevel(level)
         try:
             mp = U.make_map(case['graph'])
-            mt = U.make_matcher(mp, case['cfg'])
+            mt = U.make_matcher(mp, case['cfg'], case.get('warmup'))
             rr = []
             for op in ops:
                 try:
